@@ -108,7 +108,7 @@ def decide(pid, P, tier, seed, replay, scratch, t0):
     forb = engine.grep_forbidden()
     if forb:
         broken.append({"what": "forbidden constructs in Lean sources", "hits": forb[:20]})
-    prop_thms = [t for t in thms if t["module"] == module]
+    prop_thms = [t for t in thms if t["module"] in P.get("prop_modules", [module])]
     obligations = len(thms) if thms else max(1, P.get("expected_obligations", 1))
     discharged = len(thms) if not broken else 0
 
